@@ -29,6 +29,7 @@ The simulation lemma (Lemmas/BigStep.lean) is stated for an arbitrary frame cont
 `cs`, pending entries `K`, values `V`, any non-empty scopes — with one machine lemma per node
 kind, and proved by induction on the big-step fuel (`Holds`, `Concl`, `sim_succ_*`).
 -/
+set_option linter.unusedSimpArgs false
 namespace C05
 open Machine BigStep BigStepLemmas
 
@@ -73,6 +74,23 @@ theorem machine_refines_bigstep_stage_b (p : Program)
   refines_of_IH (sim1 (applyBuiltin p) p (apHolds_builtin p) fuel).1
     (level_toplevel p 1 hlv) (wf_toplevel p hwf) (exits_toplevel p hex)
 
+/-- **Stage (c)** = stages (a), (b) + named functions (recursion included), function literals
+(closures capturing the scopes of their definition by value), calls of both (new frame, arguments
+right-to-left, arity errors, the value handed back iff the call's value is used) and `return`
+from any depth of blocks and loops. Programs of level ≤ 2 — the whole core fragment.
+
+The reference interpreter here is `evalWith (applyChecked p)`: `BigStep.eval` with the fragment
+check made dynamic at closure calls (a closure whose body is outside the fragment answers
+`unsupported`; every function literal of a program satisfying the three predicates is inside). -/
+theorem machine_refines_bigstep_stage_c (p : Program)
+    (hwf : wfProgram p = true) (hex : exitsProgram p = true) (hlv : levelProgram p ≤ 2) (fuel : Nat) :
+    match runProgramWith (evalWith (applyChecked p) p fuel) p with
+    | (out, .val v) => ∃ n s, runN n (Machine.init p [] none none) = .done s v ∧ s.out = out
+    | (out, .err e) => ∃ n s, runN n (Machine.init p [] none none) = .error s e ∧ s.out = out
+    | _ => True :=
+  refines_of_IH (sim2 p (funs_ok p hwf hex hlv) fuel).1
+    (level_toplevel p 2 hlv) (wf_toplevel p hwf) (exits_toplevel p hex)
+
 /-- Non-vacuity: a level-0 program with a `let`, an `if`/`else` block, a `match`, a built-in call
 and a tuple satisfies the three fragment predicates (flags as the parser sets them). -/
 def exampleA : Program :=
@@ -106,6 +124,25 @@ def exampleB : Program :=
 example : wfProgram exampleB = true ∧ exitsProgram exampleB = true ∧ levelProgram exampleB ≤ 1 := by
   refine ⟨?_, ?_, ?_⟩ <;>
     simp [exampleB, wfProgram, exitsProgram, levelProgram, wfAll, wfE, wfB, wfCases, exB, exE, exAll, exCases,
+      lvB, lvE, lvCases, Expr.used]
+
+/-- Non-vacuity for stage (c):
+`fun f(n) { while True { if n > 2 { return n }  n += 1 }  0 }   let k = 10   let g = fun(x) { x + k }   g(f(1))`. -/
+def exampleC : Program :=
+  { funs := [{ name := "f", params := ["n"], body :=
+      [.whileE 10 false (.var 1 true "True")
+         [.ifE 6 false (.binop 4 true .gt (.var 2 true "n") (.int 3 true 2)) [.ret 5 false (some (.var 30 true "n"))] none,
+          .update 8 false true "n" (.int 7 true 1)],
+       .int 11 true 0] }],
+    enums := [],
+    toplevel := [
+      .letE 13 true (.sym "k") (.int 12 true 10),
+      .letE 19 true (.sym "g") (.lambda 18 true ["x"] [.binop 17 true .add (.var 15 true "x") (.var 16 true "k")]),
+      .call 25 true (.var 20 true "g") [.call 24 true (.var 21 true "f") [.int 22 true 1]]] }
+
+example : wfProgram exampleC = true ∧ exitsProgram exampleC = true ∧ levelProgram exampleC ≤ 2 := by
+  refine ⟨?_, ?_, ?_⟩ <;>
+    simp [exampleC, wfProgram, exitsProgram, levelProgram, wfAll, wfE, wfB, wfCases, exB, exE, exAll, exCases,
       lvB, lvE, lvCases, Expr.used]
 
 end C05
